@@ -126,6 +126,13 @@ class C16(Spec):
                         return ("waitutil-wrong", "WaitUtil(%d) called at %d returned false; the close happened at %d, before the deadline %d" % (T, c, tc, D))
         return None
 
+    def extra(self, ctx):
+        # lines on which the monitor's search was cut off (depth fuel / state cap): never a reject, judged by the oracle only
+        ex = ctx.get("ex") or {}
+        model = ex.get("model") or []
+        ctx["coverage"]["monitor_unchecked_lines"] = sum(1 for m in model if m.startswith("ok unchecked"))
+        ctx["coverage"]["monitor_checked_lines"] = sum(1 for m in model if m == "ok")
+
     def nontrivial(self, script, impl):
         if script.startswith("stress"):
             return True
